@@ -262,6 +262,31 @@ func c16Worker(args []string) int {
 			}(di)
 		}
 		dwg.Wait()
+		// ... also when names collide and almost every name is an explicit alias (which package keeps the
+		// name must not depend on map iteration order)
+		{
+			csrc := []byte("package p\n\nimport foo \"a.b/bar\"\n\nvar _ = foo.X\n")
+			cfirst := ""
+			for k := 0; k < 60; k++ {
+				f, err := decorator.NewDecoratorWithImports(token.NewFileSet(), "main", goast.WithResolver(guess.New())).Parse(csrc)
+				if err != nil {
+					fmt.Println("DIFF repeat-collision: error", err)
+					break
+				}
+				f.Decls = append(f.Decls, &dst.GenDecl{Tok: token.VAR, Specs: []dst.Spec{&dst.ValueSpec{Names: []*dst.Ident{dst.NewIdent("_")}, Values: []dst.Expr{&dst.Ident{Name: "Y", Path: "a.b/foo"}}}}})
+				var buf bytes.Buffer
+				if err := decorator.NewRestorerWithImports("main", guess.New()).Fprint(&buf, f); err != nil {
+					fmt.Println("DIFF repeat-collision: error", err)
+					break
+				}
+				if cfirst == "" {
+					cfirst = buf.String()
+				} else if buf.String() != cfirst {
+					fmt.Printf("DIFF repeat-collision %d: output differs between identical calls:\n%s\nvs\n%s\n", k, cfirst, buf.String())
+					break
+				}
+			}
+		}
 		fmt.Println("STRESS-DONE")
 		return 0
 	case "trace":
